@@ -69,9 +69,11 @@ type histOp struct {
 func genHistory(rng *rand.Rand) history {
 	h := history{Retain: 1 + rng.Intn(3)}
 	n := 2 + rng.Intn(5)
-	var idx, term uint64 = 10, 1
+	// terms start next to a change in the number of digits: directory names sort as text
+	var idx uint64 = 10 + uint64(rng.Intn(3))*45
+	term := []uint64{1, 1, 8, 9, 98, 99}[rng.Intn(6)]
 	for i := 0; i < n; i++ {
-		switch rng.Intn(5) {
+		switch rng.Intn(7) {
 		case 0: // equal pair
 		case 1: // older than the previous one
 			if idx > 5 {
@@ -79,6 +81,16 @@ func genHistory(rng *rand.Rand) history {
 			}
 		case 2:
 			term++
+			idx += uint64(rng.Intn(10))
+		case 3: // a later term whose snapshot ends at a lower index
+			term++
+			if idx > 8 {
+				idx -= uint64(1 + rng.Intn(8))
+			}
+		case 4: // an earlier term with a higher index (arbitrary order is allowed)
+			if term > 1 {
+				term--
+			}
 			idx += uint64(rng.Intn(10))
 		default:
 			idx += uint64(1 + rng.Intn(20))
